@@ -377,7 +377,7 @@ def mGcLoop : Nat → List Int → MM Unit
     | (.error e, m1) => (.error e, m1)
     | (.ok work, m1) => mGcLoop f work m1
 
-/-- `{u for u in roots if not self.ref(u)}` (elements as given, signed) -/
+/-- `{abs(u) for u in roots if not self.ref(u)}` -/
 def mUnusedOf : List Int → MM (List Int)
   | [] => fun m => (.ok [], m)
   | u :: rest => fun m =>
@@ -386,7 +386,9 @@ def mUnusedOf : List Int → MM (List Int)
     | some c =>
       match mUnusedOf rest m with
       | (.error e, m1) => (.error e, m1)
-      | (.ok r, m1) => if c = 0 then (.ok (if r.contains u then r else u :: r), m1) else (.ok r, m1)
+      | (.ok r, m1) =>
+        if c = 0 then (.ok (if r.contains (u.natAbs : Int) then r else (u.natAbs : Int) :: r), m1)
+        else (.ok r, m1)
 
 /-- `collect_garbage(roots)`; `none` = `self._ref` -/
 def mCollectGarbage (roots : Option (List Int)) : MM Unit := fun m =>
@@ -431,7 +433,7 @@ def enumInteger (bits : List String) (i : Nat) : List (Key × Bool) :=
   (List.range bits.length).zip bits |>.map fun (k, b) => (Key.name b, (i >>> k) % 2 == 1)
 
 /-- `bdd.assert_consistent()` (non-terminal part; the terminal is implicit in the model) -/
-def assertConsistent : M Unit := fun m =>
+def bddAssertConsistent : M Unit := fun m =>
   let t := m.tbl
   if !m.roots.all (fun r => t.mem r) then (.error .assertion, m) else
   -- inverses / uniqueness
@@ -461,26 +463,38 @@ def bddLevelsOrder (t : Tbl) (rec : Option (List Nat)) : Except Err (List Nat) :
 
 /-- loop over the values of one integer variable: cofactor and map the edge -/
 def b2mSuccs (u : Nat) (bits : List String) (umap : List (Nat × Int)) : List Nat → M (List Int)
-  | [] => pure []
-  | i :: rest => do
+  | [] => fun mb => (.ok [], mb)
+  | i :: rest => fun mb =>
     -- `x = bdd.cofactor(u, d)`
-    let x ← cofactor (u : Int) (enumInteger bits i)
-    -- `umap[abs(z)] if z > 0 else -umap[abs(z)]`
-    let r ← M.ofOption .key (umap.lookup x.natAbs)
-    let r := if x > 0 then r else -r
-    let rs ← b2mSuccs u bits umap rest
-    return r :: rs
+    match cofactor (u : Int) (enumInteger bits i) mb with
+    | (.error e, mb1) => (.error e, mb1)
+    | (.ok x, mb1) =>
+      -- `umap[abs(z)] if z > 0 else -umap[abs(z)]`
+      match umap.lookup x.natAbs with
+      | none => (.error .key, mb1)
+      | some r =>
+        match b2mSuccs u bits umap rest mb1 with
+        | (.error e, mb2) => (.error e, mb2)
+        | (.ok rs, mb2) => (.ok ((if x > 0 then r else -r) :: rs), mb2)
 
 /-- BDD side of one iteration of the main loop for the kept node `u`: the integer variable
 owning its level, and the MDD references of the cofactors for each integer value -/
 def b2mIntSucc (bitToVar : List (String × MVar)) (u : Nat) (umap : List (Nat × Int)) :
-    M (MVar × List Int) := do
-  let mb ← M.get
-  let n ← M.ofOption .key (mb.tbl.succ[u]?)
-  let bit ← varAtLevel (n.lvl : Int)
-  let var ← M.ofOption .key (lastLookup bit bitToVar)
-  let intSucc ← b2mSuccs u var.bits umap (List.range (2 ^ var.bits.length))
-  return (var, intSucc)
+    M (MVar × List Int) := fun mb =>
+  match mb.tbl.succ[u]? with
+  | none => (.error .key, mb)
+  | some n =>
+    -- `bit = bdd.var_at_level(i)`
+    match mb.tbl.l2v[n.lvl]? with
+    | none => (.error .value, mb)
+    | some bit =>
+      -- `var = bit_to_var[bit]`
+      match lastLookup bit bitToVar with
+      | none => (.error .key, mb)
+      | some var =>
+        match b2mSuccs u var.bits umap (List.range (2 ^ var.bits.length)) mb with
+        | (.error e, mb1) => (.error e, mb1)
+        | (.ok intSucc, mb1) => (.ok (var, intSucc), mb1)
 
 /-- the main loop `for u, i, v, w in bdd.levels(skip_terminals=True)` -/
 def b2mLoop (rm : List Nat) (bitToVar : List (String × MVar)) :
@@ -507,58 +521,106 @@ structure B2MPrep where
   /-- the node table after collection and reordering -/
   tbl : Tbl
 
-/-- `bdd_to_mdd`, up to the main loop: target bit order, `collect_garbage`, `reorder`, zones,
-reverse edges, selection of the zone-entry nodes -/
-def b2mPrepare (dvars : List MVar) : M B2MPrep := do
-  -- map from bits to integers (later entries of the dict update win)
-  let bitToVar : List (String × MVar) := dvars.flatMap fun d => d.bits.map fun b => (b, d)
-  -- find target bit order
+/-- target bit order: `for j in range(m): order.extend(dvars[levels[j]]['bitnames'])` -/
+def b2mOrder (dvars : List MVar) : Except Err (List String) :=
   let levels : List (Nat × MVar) := dvars.map fun d => (d.level, d)
   let mlen := (dedup (dvars.map (·.level))).length
-  let mut order : List String := []
-  for j in List.range mlen do
-    let var ← M.ofOption .key (lastLookup j levels)
-    order := order ++ var.bits
-  let bitToSort : List (String × Nat) := order.zip (List.range order.length)
-  -- reorder
-  collectGarbage none
-  let orderDict : List (String × Int) :=
-    (dedup order.reverse).reverse.map fun b => (b, (((lastLookup b bitToSort).getD 0 : Nat) : Int))
-  reorder (some orderDict)
-  -- zones of bits per integer var
-  let mut zones : List (String × Nat × Nat) := []
-  for d in dvars do
-    let lsb ← M.ofOption .other d.bits.head?          -- IndexError
-    let msb ← M.ofOption .other d.bits.getLast?
-    let minLevel ← M.ofOption .key (lastLookup lsb bitToSort)
-    let maxLevel ← M.ofOption .key (lastLookup msb bitToSort)
-    zones := zones ++ [(d.name, minLevel, maxLevel)]
-  let m ← M.get
+  (List.range mlen).foldlM (fun (order : List String) j =>
+    match lastLookup j levels with
+    | none => .error .key
+    | some var => .ok (order ++ var.bits)) []
+
+/-- `bit_to_sort = {bit: k for k, bit in enumerate(order)}` -/
+def b2mBitToSort (order : List String) : List (String × Nat) := order.zip (List.range order.length)
+
+/-- the dict `bit_to_sort` as an association list with distinct keys -/
+def b2mOrderDict (order : List String) : List (String × Int) :=
+  (dedup order.reverse).reverse.map fun b => (b, (((lastLookup b (b2mBitToSort order)).getD 0 : Nat) : Int))
+
+/-- zones of bits per integer variable -/
+def b2mZones (bitToSort : List (String × Nat)) : List MVar → Except Err (List (String × Nat × Nat))
+  | [] => .ok []
+  | d :: rest =>
+    match d.bits.head?, d.bits.getLast? with
+    | some lsb, some msb =>
+      match lastLookup lsb bitToSort, lastLookup msb bitToSort with
+      | some minLevel, some maxLevel =>
+        match b2mZones bitToSort rest with
+        | .error e => .error e
+        | .ok zs => .ok ((d.name, minLevel, maxLevel) :: zs)
+      | _, _ => .error .key
+    | _, _ => .error .other                               -- IndexError
+
+/-- `pred[abs(v)].add(u)` needs the successors to be nodes -/
+def b2mPredCheck (t : Tbl) : Bool :=
+  t.succ.toList.all fun (_, n) => t.mem n.lo && t.mem n.hi
+
+/-- one step of "find BDD nodes mentioned from above": `some true` = add `u` to `rm` -/
+def b2mRmOne (m : Mgr) (bitToVar : List (String × MVar)) (zones : List (String × Nat × Nat)) (u : Nat) :
+    Except Err Bool :=
   let t := m.tbl
-  -- reverse edges: `pred[abs(v)].add(u)` needs the successors to be nodes
-  for (_, n) in t.succ.toList do
-    if !t.mem n.lo then M.throw .key
-    if !t.mem n.hi then M.throw .key
-  -- find BDD nodes mentioned from above
-  let mut rm : List Nat := []
-  for u in (1 :: t.succ.keys) do
-    let rc ← refOf (u : Int)
+  match m.ref[u]? with
+  | none => .error .key
+  | some rc =>
     let p := bddPreds t u
     -- has external refs ?
-    if rc > p.length then continue
+    if rc > p.length then .ok false else
     -- has refs from outside zone ?
-    let i ← M.ofOption .key (t.levelOf? (u : Int))
-    let bit ← varAtLevel (i : Int)
-    let var ← M.ofOption .key (lastLookup bit bitToVar)
-    let (minLevel, _) ← M.ofOption .key (lastLookup var.name zones)
-    let predLevels := p.filterMap fun v => (t.succ[v]?).map (·.lvl)
-    match predLevels with
-    | [] => M.throw .value                             -- `min()` of an empty set
-    | l0 :: ls =>
-      let minPredLevel := ls.foldl min l0
-      if minPredLevel < minLevel then continue
-      rm := rm ++ [u]
-  return ⟨rm, bitToVar, t⟩
+    match t.levelOf? (u : Int) with
+    | none => .error .key
+    | some i =>
+      match t.l2v[i]? with
+      | none => .error .value
+      | some bit =>
+        match lastLookup bit bitToVar with
+        | none => .error .key
+        | some var =>
+          match lastLookup var.name zones with
+          | none => .error .key
+          | some (minLevel, _) =>
+            match p.filterMap fun v => (t.succ[v]?).map (·.lvl) with
+            | [] => .error .value                             -- `min()` of an empty set
+            | l0 :: ls => .ok (!(ls.foldl min l0 < minLevel))
+
+def b2mRm (m : Mgr) (bitToVar : List (String × MVar)) (zones : List (String × Nat × Nat)) :
+    List Nat → Except Err (List Nat)
+  | [] => .ok []
+  | u :: rest =>
+    match b2mRmOne m bitToVar zones u with
+    | .error e => .error e
+    | .ok b =>
+      match b2mRm m bitToVar zones rest with
+      | .error e => .error e
+      | .ok r => .ok (if b then u :: r else r)
+
+/-- map from bits to integers (later entries of the dict update win) -/
+def b2mBitToVar (dvars : List MVar) : List (String × MVar) :=
+  dvars.flatMap fun d => d.bits.map fun b => (b, d)
+
+/-- `bdd_to_mdd`, up to the main loop: target bit order, `collect_garbage`, `reorder`, zones,
+reverse edges, selection of the zone-entry nodes -/
+def b2mPrepare (dvars : List MVar) : M B2MPrep := fun mb =>
+  -- find target bit order
+  match b2mOrder dvars with
+  | .error e => (.error e, mb)
+  | .ok order =>
+  -- reorder
+  match collectGarbage none mb with
+  | (.error e, m1) => (.error e, m1)
+  | (.ok _, m1) =>
+  match reorder (some (b2mOrderDict order)) m1 with
+  | (.error e, m2) => (.error e, m2)
+  | (.ok _, m2) =>
+  -- zones of bits per integer var
+  match b2mZones (b2mBitToSort order) dvars with
+  | .error e => (.error e, m2)
+  | .ok zones =>
+  -- reverse edges
+  if !b2mPredCheck m2.tbl then (.error .key, m2) else
+  -- find BDD nodes mentioned from above
+  match b2mRm m2 (b2mBitToVar dvars) zones (1 :: m2.tbl.succ.keys) with
+  | .error e => (.error e, m2)
+  | .ok rm => (.ok ⟨rm, b2mBitToVar dvars, m2.tbl⟩, m2)
 
 /-- `bdd_to_mdd(bdd, dvars)`; `levRec` is the recorded order of `bdd.levels(...)` -/
 def bddToMdd (dvars : List MVar) (levRec : Option (List Nat)) : M B2MOut := fun mb =>
@@ -566,7 +628,7 @@ def bddToMdd (dvars : List MVar) (levRec : Option (List Nat)) : M B2MOut := fun 
   | (.error e, mb1) => (.error e, mb1)
   | (.ok p, mb1) =>
     -- build layer by layer
-    match assertConsistent mb1 with
+    match bddAssertConsistent mb1 with
     | (.error e, mb2) => (.error e, mb2)
     | (.ok _, mb2) =>
       match bddLevelsOrder p.tbl levRec with
